@@ -449,7 +449,13 @@ def wrapper_pairing(check: Check, repo: Repo, funcs: list[tuple[str, str]], rule
                          f"operands {[unparse(u) for u in unwrapped]} are not pinned to one wrapper class by a common single-class predicate "
                          f"(facts: {[sorted(p) for p in pinned]})")
         if n == 0:
-            raise AnalysisError(f"{q}: no double-unwrapping recursion found")
+            # no level-by-level descent: a comparison that strips all wrappers at once loses the inner ones
+            strips = [c for c in walk_body(fn) if isinstance(c, ast.Call) and call_name(c).split(".")[-1] in ("get_named_type", "get_nullable_type")]
+            if not strips:
+                raise AnalysisError(f"{q}: no double-unwrapping recursion found")
+            check.ob(rule, strips[-1], f"{q}: wrappers are compared level by level", False,
+                     f"the function never recurses on `.of_type` of both operands; it strips wrappers with `{unparse(strips[-1])[:50]}` instead: "
+                     "a difference in an inner wrapper ([Int!] against [Int], [[Int]] against [Int]) is not compared")
 
 
 # -- the validation result cache of a schema ---------------------------------------------------
